@@ -99,6 +99,11 @@ def gen_case(rng, tier, avoid):
             for op in ops:
                 if op.get('op') == 'add_lf':
                     op['kwargs']['fh_id'] = 'H' * 66
+    if profile == 'B' and params['fringe'] in ('rows_unequal_1', 'rows_unequal_longer', 'rows_unequal_shorter', 'dtype_int64',
+                                               'dtype_float16', 'dtype_bool', 'ndim3') and rng.random() < 0.6:
+        # the same defect supplied through another source kind (each kind has its own wrapper and checks)
+        kind = gen.pick(rng, ['dict', 'h5', 'h5'])
+        ops, data = gen.externalize(ops, kind, rng, extras=False)
     params['source'] = kind
     if data:
         params['data'] = data
